@@ -178,11 +178,20 @@ package semantic
 //@ pure func refsOK(a *parser.Thrift, ref []*parser.ConstValueExtra) bool { return forall i int :: 0 <= i && i < len(ref) ==> ref[i] != nil && denotes(a, ref[i]) }
 //@ pure func ident(t *parser.ConstValue) string { return ite(t.TypedValue.Identifier != nil, *t.TypedValue.Identifier, "") }
 
+//@ pure func bound1(a *parser.Thrift, x *parser.ConstValue) bool { return x.Type == parser.ConstType_ConstIdentifier && ident(x) != "true" && ident(x) != "false" ==> x.Extra != nil && denotes(a, x.Extra) }
+
 //@ func (r *resolver) ResolveConstValue(t *parser.ConstValue) (err error)
 //@   requires wfResolver(r) && wfThs() && wfCVs() && wfEnumsG() && t != nil
 //@   ensures err == nil && t.Type == parser.ConstType_ConstIdentifier && ident(t) != "true" && ident(t) != "false" ==> t.Extra != nil && denotes(r.ast, t.Extra)
+//@   ensures forall x *parser.ConstValue :: x != nil && old(allocated(x) && x.Extra != nil && denotes(r.ast, x.Extra)) ==> x.Extra != nil && denotes(r.ast, x.Extra)
+//@   ensures err == nil && t.Type == parser.ConstType_ConstList ==> forall i int :: 0 <= i && i < len(t.TypedValue.List) ==> bound1(r.ast, t.TypedValue.List[i])
+//@   ensures err == nil && t.Type == parser.ConstType_ConstMap ==> forall i int :: 0 <= i && i < len(t.TypedValue.Map) ==> bound1(r.ast, t.TypedValue.Map[i].Key) && bound1(r.ast, t.TypedValue.Map[i].Value)
 //@   modifies parser.ConstValue.Extra, parser.Include.Used
 //@   loop 1 invariant err == nil && refsOK(r.ast, ref)
+//@   loop 2 invariant forall x *parser.ConstValue :: x != nil && old(allocated(x) && x.Extra != nil && denotes(r.ast, x.Extra)) ==> x.Extra != nil && denotes(r.ast, x.Extra)
+//@   loop 2 invariant forall i int :: 0 <= i && i < $i ==> bound1(r.ast, t.TypedValue.List[i])
+//@   loop 3 invariant forall x *parser.ConstValue :: x != nil && old(allocated(x) && x.Extra != nil && denotes(r.ast, x.Extra)) ==> x.Extra != nil && denotes(r.ast, x.Extra)
+//@   loop 3 invariant forall i int :: 0 <= i && i < $i ==> bound1(r.ast, t.TypedValue.Map[i].Key) && bound1(r.ast, t.TypedValue.Map[i].Value)
 //@   loop 1.1 invariant err == nil && refsOK(r.ast, ref)
 //@   loop 1.2 invariant err == nil && refsOK(r.ast, ref)
 //@   loop 1.3 invariant err == nil && refsOK(r.ast, ref)
